@@ -84,7 +84,21 @@ def gen_chain(rng, backend="pandas"):
             if rng.random() < 0.2:
                 cls["config"]["name"] = f"custom{k}"
         chain.append(cls)
-    return {"backend": backend, "chain": chain}
+    case = {"backend": backend, "chain": chain}
+    # the same classes wired as a diamond (M1 and M2 derive from M0, M3 from both) or with M3 joining in the other order
+    if depth == 4 and rng.random() < 0.5:
+        case["bases"] = rng.choice([[[], [0], [0], [1, 2]], [[], [0], [0], [2, 1]], [[], [0], [1], [2, 0]][:3] + [[2]]])
+    return case
+
+
+def lineages_of(case):
+    """for every class the classes it inherits from, most basic first — Python's own MRO (C3) on plain classes"""
+    n = len(case["chain"])
+    bases = case.get("bases") or [[] if i == 0 else [i - 1] for i in range(n)]
+    dummies = []
+    for i in range(n):
+        dummies.append(type(f"D{i}", tuple(dummies[j] for j in bases[i]) or (object,), {}))
+    return [[dummies.index(k) for k in reversed(d.__mro__) if k is not object] for d in dummies]
 
 
 # ---- source generation ------------------------------------------------------------------------------
@@ -161,10 +175,11 @@ def build_classes(case, upto=None, order=None):
         import pandera as pa
         ns = {"pa": pa, "typing": __import__("typing")}
         root = "pa.DataFrameModel"
-    base = root
-    for cls in case["chain"][:upto]:
+    n = len(case["chain"])
+    bases = case.get("bases") or [[] if i == 0 else [i - 1] for i in range(n)]
+    for i, cls in enumerate(case["chain"][:upto]):
+        base = ", ".join(case["chain"][j]["cname"] for j in bases[i]) or root
         exec(compile(class_source(cls, base, pol), "<c16>", "exec", dont_inherit=True), ns)  # noqa: S102
-        base = cls["cname"]
     return ns
 
 
@@ -201,7 +216,7 @@ def model_case(case):
                         for m in cls["parsers"]],
             "dfParsers": [],
             "config": [[k, repr(v)] for k, v in cfg.items()]})
-    return {"chain": chain}
+    return {"chain": chain, "lineages": lineages_of(case)}
 
 
 DT = {"int": "int64", "float": "float64", "str": "str", "Int64": "int64", "Float64": "float64", "String": "str"}
